@@ -224,14 +224,27 @@ Qed.
 Lemma canon_pref_ok d q ce : canon_pref d q = Ok ce -> canon_ok (fst ce) (snd ce) = true.
 Proof. rewrite canon_pref_unfold. apply canon_dec_ok. Qed.
 
+Lemma float_ok_held r : float_ok r = true -> float_held r = true.
+Proof.
+  unfold float_ok, float_held. intros H. repeat (apply andb_true_iff in H; destruct H as [H ?]).
+  rewrite H, H0, H2. reflexivity.
+Qed.
+
+Lemma float_held_fzero r : float_held r = true -> float_ok (fzero r) = true.
+Proof.
+  unfold fzero. destruct (String.eqb r "-0.0") eqn:E; [reflexivity|].
+  unfold float_ok, float_held. intros H. repeat (apply andb_true_iff in H; destruct H as [H ?]).
+  rewrite H, H0, H1, E. reflexivity.
+Qed.
+
 (* ---------- validation yields level-2 values, canonicalisation yields cache-key values ---------- *)
 Lemma validate_valid : forall d v x, validate d v = Ok x -> valid d x = true.
 Proof.
   fix IH 1. intros d v x H. destruct d as [| | | |d'|n| |ds| | |].
   - destruct v; simpl in H; try discriminate; inversion H; reflexivity.
   - destruct v; simpl in H; try discriminate.
-    + destruct (_ && _) eqn:E; [|discriminate]. inversion H. simpl. apply andb_true_iff in E. tauto.
-    + destruct (float_ok r) eqn:E; [|discriminate]. inversion H. simpl. assumption.
+    + destruct (_ && _) eqn:E; [|discriminate]. inversion H. simpl. apply andb_true_iff in E. apply float_ok_held. tauto.
+    + destruct (float_held r) eqn:E; [|discriminate]. inversion H. simpl. assumption.
     + inversion H. destruct b; reflexivity.
   - destruct v; simpl in H; try discriminate; inversion H; reflexivity.
   - destruct v; simpl in H; try discriminate; inversion H; reflexivity.
@@ -267,7 +280,7 @@ Proof.
 Qed.
 
 Definition simple (v : pval) : bool :=
-  match v with VPrefW _ _ | VDecW _ | VRec _ | VPref _ _ | VDec _ _ => false | _ => true end.
+  match v with VPrefW _ _ | VDecW _ | VRec _ | VPref _ _ | VDec _ _ | VFloat _ => false | _ => true end.
 
 Lemma canon_simple v : simple v = true -> canon v = Ok v.
 Proof. destruct v; try discriminate; reflexivity. Qed.
@@ -275,7 +288,8 @@ Proof. destruct v; try discriminate; reflexivity. Qed.
 Lemma canon_typed : forall d x y, valid d x = true -> canon x = Ok y -> typed d y = true.
 Proof.
   fix IH 1. intros d x y V C. destruct d as [| | | |d'|n| |ds| | |].
-  1-4,6-7: destruct x; try discriminate; simpl in C; inversion C; subst; exact V.
+  1,3-4,6-7: destruct x; try discriminate; simpl in C; inversion C; subst; exact V.
+  1: { destruct x; try discriminate. simpl in C. inversion C. simpl. apply float_held_fzero. exact V. }
   - assert (forall z, typed d' z = true -> typed (DOpt d') z = true) as L by (intros z Hz; destruct z; simpl; auto).
     destruct x; simpl in V; try (simpl in C; inversion C; reflexivity); apply L; eapply IH; eassumption.
   - destruct x; try discriminate. simpl in C.
@@ -463,6 +477,7 @@ Proof. repeat split; try (vm_compute; reflexivity). vm_compute. discriminate. Qe
 Lemma canon_nonsimple v y : canon v = Ok y -> simple v = false -> simple y = false.
 Proof.
   destruct v; try discriminate; simpl; intros C _.
+  - inversion C. reflexivity.
   - match type of C with (bind ?g _) = _ => destruct g; simpl in C; [|discriminate] end. inversion C. reflexivity.
   - destruct (canon_pref d q); simpl in C; [|discriminate]. inversion C. reflexivity.
   - destruct (canon_dec d); simpl in C; [|discriminate]. inversion C. reflexivity.
@@ -471,6 +486,7 @@ Qed.
 Section LiftProofs.
 Variable RP : Dec.dec -> Z -> Dec.dec -> Z -> bool.
 Variable RD : Dec.dec -> Dec.dec -> bool.
+Variable RF : string -> string -> bool.
 Variable G : Dec.dec -> bool.          (* a side condition on the Prefixed numbers *)
 
 Fixpoint guard (v : pval) : bool :=
@@ -480,20 +496,23 @@ Fixpoint guard (v : pval) : bool :=
   | _ => true
   end.
 
-Lemma lift_simple a b : simple a = true -> lift_eqb RP RD a b = pval_eqb a b.
+Lemma lift_simple a b : simple a = true -> lift_eqb RP RD RF a b = pval_eqb a b.
 Proof. destruct a; try discriminate; reflexivity. Qed.
 
 (* soundness: leaf tests that imply equal canonical forms lift to whole values *)
 Lemma lift_sound :
   (forall x q y r, G x = true -> G y = true -> RP x q y r = true -> canon_pref x q = canon_pref y r) ->
   (forall x y, RD x y = true -> canon_dec x = canon_dec y) ->
+  (forall r s, RF r s = true -> fzero r = fzero s) ->
   forall a b x y, canon a = Ok x -> canon b = Ok y -> guard a = true -> guard b = true ->
-  lift_eqb RP RD a b = true -> x = y.
+  lift_eqb RP RD RF a b = true -> x = y.
 Proof.
-  intros HP HD. fix IH 1. intros a b x y Ca Cb Ga Gb L.
+  intros HP HD HF. fix IH 1. intros a b x y Ca Cb Ga Gb L.
   destruct (simple a) eqn:Sa.
   - rewrite (lift_simple a b Sa) in L. apply pval_eqb_eq in L. subst b. congruence.
   - destruct a; try discriminate.
+    + (* VFloat *)
+      destruct b; try discriminate. simpl in Ca, Cb, L. rewrite (HF _ _ L) in Ca. congruence.
     + (* VRec *)
       destruct b; try discriminate. simpl in Ca, Cb.
       match type of Ca with (bind ?g _) = _ => destruct g as [ra|] eqn:Ra; simpl in Ca; [|discriminate] end.
@@ -520,14 +539,22 @@ Qed.
 Lemma lift_complete :
   (forall x q y r, canon_pref x q = canon_pref y r -> RP x q y r = true) ->
   (forall x y, canon_dec x = canon_dec y -> RD x y = true) ->
-  forall a b x, canon a = Ok x -> canon b = Ok x -> lift_eqb RP RD a b = true.
+  (forall r s, fzero r = fzero s -> RF r s = true) ->
+  forall a b x, canon a = Ok x -> canon b = Ok x -> lift_eqb RP RD RF a b = true.
 Proof.
-  intros HP HD. fix IH 1. intros a b x Ca Cb.
+  intros HP HD HF. fix IH 1. intros a b x Ca Cb.
   destruct (simple a) eqn:Sa.
   - rewrite (lift_simple a b Sa). apply pval_eqb_eq. rewrite (canon_simple _ Sa) in Ca. inversion Ca. subst x.
     destruct (simple b) eqn:Sb; [rewrite (canon_simple _ Sb) in Cb; congruence|].
     pose proof (canon_nonsimple _ _ Cb Sb). congruence.
   - destruct a; try discriminate.
+    + (* VFloat *)
+      simpl in Ca. inversion Ca. subst x. clear Ca.
+      destruct b; simpl in Cb; try discriminate.
+      * inversion Cb. simpl. apply HF. congruence.
+      * match type of Cb with (bind ?g _) = _ => destruct g; simpl in Cb; discriminate end.
+      * destruct (canon_pref d q); simpl in Cb; discriminate.
+      * destruct (canon_dec d); simpl in Cb; discriminate.
     + (* VRec *)
       simpl in Ca. match type of Ca with (bind ?g _) = _ => destruct g as [ra|] eqn:Ra; simpl in Ca; [|discriminate] end.
       inversion Ca. subst x. clear Ca Sa.
@@ -565,7 +592,7 @@ Qed.
 End LiftProofs.
 
 (* lists of field values behave like one paramclass instance *)
-Lemma lifts_as_rec RP RD xs ys : lifts_eqb RP RD xs ys = lift_eqb RP RD (VRec xs) (VRec ys).
+Lemma lifts_as_rec RP RD RF xs ys : lifts_eqb RP RD RF xs ys = lift_eqb RP RD RF (VRec xs) (VRec ys).
 Proof. revert ys. induction xs as [|x xs IH]; intros [|y ys]; simpl; try reflexivity; rewrite IH; reflexivity. Qed.
 
 Lemma canon_all_as_rec xs : canon (VRec xs) = (r <- canon_all xs ;; Ok (VRec r)).
@@ -601,12 +628,16 @@ Proof. unfold pref_hash_eq. apply res_eqb_iff. destruct (canon_pref_total x q) a
 Lemma dec_hash_eq_iff x y : dec_hash_eq x y = true <-> canon_dec x = canon_dec y.
 Proof. unfold dec_hash_eq. apply res_eqb_iff. destruct (canon_dec_total x) as [c [e ->]]. reflexivity. Qed.
 
+Lemma float_eq_iff r s : float_eq r s = true <-> fzero r = fzero s.
+Proof. unfold float_eq. apply String.eqb_eq. Qed.
+
 (* (1) == on validated instances against the cache key: values with equal keys compare equal ... *)
 Lemma inst_eqb_of_key a b x : canon a = Ok x -> canon b = Ok x -> inst_eqb a b = true.
 Proof.
   apply lift_complete.
   - intros p q y r H. apply pcmp_eq_of_value. apply canon_pref_eq_iff. assumption.
   - intros p y H. apply canon_dec_eq_iff. assumption.
+  - intros r s. apply float_eq_iff.
 Qed.
 
 (* ... and, when no Prefixed number has more than EPSILON decimal places, values that compare equal have equal keys *)
@@ -616,18 +647,21 @@ Proof.
   rewrite !fine_guard. apply lift_sound.
   - intros p q y' r Fp Fy H. apply canon_pref_eq_iff. unfold fine_dec in *. apply pcmp_eq_fine; try lia. exact H.
   - intros p y' H. apply canon_dec_eq_iff. assumption.
+  - intros r s. apply float_eq_iff.
 Qed.
 
 (* (2) the idealised hash agrees exactly on equal keys *)
 Lemma hash_eqb_key a b x y : canon a = Ok x -> canon b = Ok y -> (hash_eqb a b = true <-> x = y).
 Proof.
   intros Ca Cb. split.
-  - intros H. eapply (lift_sound pref_hash_eq dec_hash_eq (fun _ => true)); try eassumption; try apply guard_true.
+  - intros H. eapply (lift_sound pref_hash_eq dec_hash_eq float_eq (fun _ => true)); try eassumption; try apply guard_true.
     + intros p q y' r _ _. apply pref_hash_eq_iff.
     + intros p y'. apply dec_hash_eq_iff.
+    + intros r s. apply float_eq_iff.
   - intros <-. eapply lift_complete; try eassumption.
     + intros p q y' r. apply pref_hash_eq_iff.
     + intros p y'. apply dec_hash_eq_iff.
+    + intros r s. apply float_eq_iff.
 Qed.
 
 (* whole parameter sets *)
